@@ -5,6 +5,7 @@ Part S (synthetic): all PatchTree forests <= N nodes, depth <= 4, distinct sibli
         block-structured vendor: the displayed patch text, cmd_paths and the body of apply_deploy_rulebook agree
         line by line; the session wrapper equals a table; flattening vendors: cmd_paths == reference flattening.
 Part R (real): PatchTrees produced by the real make_patch over grammar rulebooks (incl. undo_redo, %force_commit).
+Part K (corpus): the shipped (before, after) corpus with the shipped rulebooks: displayed patch == command stream.
 Part D (deploy parameters): generated deploy rulebooks with disjoint sibling rules: (timeout, questions) of every
         Command == those of the unique rule chain matching its path, else the defaults.
 """
@@ -405,7 +406,55 @@ def blocks(tier, seed):
         out.append({"part": "R", "i": i})
     for i in range(len(deploy_grammar(tier))):
         out.append({"part": "D", "i": i})
+    for i in range(8):
+        out.append({"part": "K", "i": i})
     return out
+
+
+def check_corpus(sample, report):
+    """part K: the shipped (before, after) corpus with the shipped rulebooks: displayed patch == command stream"""
+    import types
+    from annet import api, deploy
+    from annet.annlib.netdev.views.hardware import HardwareView
+    hw = HardwareView(sample["model"], None)
+    dev = types.SimpleNamespace(hw=hw, hostname="d", fqdn="d")
+    vendor = hw.vendor
+    case = {"part": "K", "sample": sample["name"]}
+    diff, pt = api._diff_and_patch(dev, env.to_odict(sample["old"]), env.to_odict(sample["new"]), None, None, False)
+    fmt = env.vendor_obj(vendor).make_formatter()
+    paths = fmt.cmd_paths(pt)
+    if vendor in FLAT_VENDORS or vendor == "routeros":
+        shown = [ln for ln in fmt.patch(pt).split("\n") if ln]
+        sent = [" ".join(p) for p in paths.keys()]
+    else:
+        shown = text_lines(fmt.patch(pt), fmt._indent)
+        sent = [(len(p) - 1, p[-1]) for p in paths.keys()]
+    if shown != sent:
+        # is the command stream exactly the displayed patch with commands repeated at one level sent once?
+        cause = "other"
+        if shown and isinstance(shown[0], tuple):
+            stack, fulls = [], []
+            for d, row in shown:
+                stack = stack[:d] + [row]
+                fulls.append(tuple(stack))
+            seen, dedup = set(), []
+            for f in fulls:
+                if f not in seen:
+                    seen.add(f)
+                    dedup.append((len(f) - 1, f[-1]))
+            if dedup == sent:
+                cause = "a command repeated at one level of the displayed patch is sent once (path-keyed cmd_paths)"
+        elif list(dict.fromkeys(shown)) == sent:
+            cause = "a command repeated at one level of the displayed patch is sent once (path-keyed cmd_paths)"
+        report({"kind": "shown-vs-sent", "part": "K", "cause": cause}, case,
+               "vendor %s: displayed patch=%r command stream=%r" % (vendor, shown, sent))
+    if sent and vendor not in FLAT_VENDORS and vendor != "routeros":
+        cl = deploy.apply_deploy_rulebook(hw, paths, do_finalize=True, do_commit=True)
+        body = [(getattr(c, "level", 0), c.cmd) for c in cl]
+        it = iter(body)
+        if not all(any(y == x for y in it) for x in sent):
+            report({"kind": "body-differs-from-cmd_paths", "part": "K", "vendor": vendor}, case, "%r vs %r" % (body, sent))
+    return len(sent)
 
 
 ALL_FLAGS = [(True, True), (True, False), (False, True), (False, False)]
@@ -469,6 +518,23 @@ def run_block(block, ctx):
                         if n > 1:
                             ctx.nontrivial += 1
                         ctx.outcomes["R:cmds=%s" % (n if n < 4 else "4+")] += 1
+    elif block["part"] == "K":
+        from mc import corpus
+        S = corpus.samples()
+        for si in range(block["i"], len(S), 8):
+            if ctx.expired():
+                return
+            try:
+                n = check_corpus(S[si], ctx.violation)
+            except Exception as e:  # noqa
+                ctx.outcomes["K:exception:%s" % type(e).__name__] += 1
+                continue
+            ctx.evals += 1
+            ctx.states += 1
+            if n > 1:
+                ctx.nontrivial += 1
+            ctx.outcomes["K:cmds=%s" % (n if n < 4 else "4+")] += 1
+        ctx.sample({"part": "K", "corpus_samples": len(S)})
     else:
         book = deploy_grammar(ctx.tier)[block["i"]]
         fs = forests(["a", "b 1", "undo c", "b 2"], 3 if ctx.tier == "quick" else 4, 3)
@@ -495,6 +561,9 @@ def replay(case):
         out.append((sig, d))
     if case["part"] == "S":
         check_tree(case["vendor"], case["model"], _tuplify(case["forest"]), [tuple(f) for f in case["flags"]], rep)
+    elif case["part"] == "K":
+        from mc import corpus
+        check_corpus(next(x for x in corpus.samples() if x["name"] == case["sample"]), rep)
     elif case["part"] == "D":
         for book in deploy_grammar("thorough"):
             if "\n".join(r.text() for r in book) == case["deploy"]:
